@@ -995,7 +995,7 @@ func init() {
 			if tier == "thorough" {
 				return 20000, 50 * time.Minute
 			}
-			return 800, 5 * time.Minute
+			return 2000, 5 * time.Minute
 		},
 		WallPerSeed:  3 * time.Minute,
 		RecycleEvery: 25,
